@@ -4,8 +4,8 @@
     utils::range_excluding_trivia, kind list regenerated from the source into GenFoldKinds.v), FOR ALL TREES. *)
 From Coq Require Import List NArith Bool Sorted String.
 From TG.Gen Require Import GenTokens GenFoldKinds.
-From TG.Model Require Import Chars Tree TreeNav Folding SymbolMap Outline.
-From TG.Proofs Require Import TreeNavProofs FoldingProofs OutlineProofs.
+From TG.Model Require Import Chars Tree TreeNav Folding SymbolMap Outline CoreAst OutlineIndex.
+From TG.Proofs Require Import TreeNavProofs FoldingProofs OutlineProofs OutlineIndexProofs.
 Import ListNotations.
 Open Scope N_scope.
 
@@ -150,3 +150,45 @@ Example C18_outline_example : exists S, run_ops ex_ops = SOk S /\
       DocSym (s2n "S") (s2n "defset") 75 76 DKDefset [DocSym (s2n "d") (s2n "def") 85 86 DKDef []];
       DocSym (s2n "M") (s2n "multiclass") 117 118 DKMulticlass [DocSym (s2n "q") (s2n "int") 123 124 DKTemplateArgument []] ]).
 Proof. eexists. split; [vm_compute; reflexivity|]. split; vm_compute; reflexivity. Qed.
+
+(** ================= Source programs: the outline-relevant slice of the indexer (OutlineIndex.oix, hand model of the
+    Class / Def / Defset / MultiClass / TemplateArgDecl / FieldDef / FieldLet / ParentClassList arms of index.rs over the typed
+    AST; tied to the code by comparing its op sequence with the projection of the REAL op log) ================= *)
+
+(** For EVERY workspace AST: the ops the slice emits replay, in the symbol-map state machine, to exactly the state the
+    slice computed (unless a modelled panic occurred) -- so every theorem above about all op sequences applies to the
+    outline of every program. *)
+Theorem C18_outline_slice_replays : forall w, oi_bad (oix w) = false -> run_ops (oix_ops w) = SOk (oi_sm (oix w)).
+Proof. exact oix_replays. Qed.
+Check C18_outline_slice_replays : forall w, oi_bad (oix w) = false -> run_ops (oix_ops w) = SOk (oi_sm (oix w)).
+Print Assumptions C18_outline_slice_replays.
+
+(** ... in particular the per-file list behind the outline of a program is the list of the global add-ops the indexer slice
+    makes for that file, in indexing order *)
+Theorem C18_outline_slice_file_list : forall w f, oi_bad (oix w) = false ->
+  iter_symbols_in_file (oi_sm (oix w)) f = match globals_in f (oix_ops w) with [] => None | l => Some l end.
+Proof. exact oix_file_list. Qed.
+Check C18_outline_slice_file_list : forall w f, oi_bad (oix w) = false ->
+  iter_symbols_in_file (oi_sm (oix w)) f = match globals_in f (oix_ops w) with [] => None | l => Some l end.
+Print Assumptions C18_outline_slice_file_list.
+
+(** Non-vacuity: the AST of `class A<int x> { int f; }  defset list<A> S = { def d; def ; }  multiclass M<int q> { def e; }`:
+    no panic, 19 ops, and the outline the statement describes (the anonymous def is the defset's second child). *)
+Definition ex_id (lo hi : N) (s : string) : ident := mkId (mkR 0 lo hi) (s2n s).
+Definition ex_ws : workspace :=
+  mkWs [[ SClass (ex_id 6 7 "A") (Some [TArg TyInt (ex_id 12 13 "x") None]) [] [IField TyInt (ex_id 21 22 "f") None];
+          SDefset (TyList (TyClass (ex_id 40 41 "A"))) (ex_id 43 44 "S")
+            [ SDef (Some (Val (mkR 0 55 56) [Inner (SId (ex_id 55 56 "d")) []])) (mkR 0 51 57) [] [];
+              SDef None (mkR 0 58 63) [] [] ];
+          SMulticlass (ex_id 77 78 "M") (Some [TArg TyInt (ex_id 83 84 "q") None]) []
+            [ SDef (Some (Val (mkR 0 92 93) [Inner (SId (ex_id 92 93 "e")) []])) (mkR 0 88 94) [] [] ] ]] [].
+Example C18_outline_slice_example :
+  oi_bad (oix ex_ws) = false /\ List.length (oix_ops ex_ws) = 19%nat /\
+  outline_of_ws ex_ws 0 = SOk (Some
+    [ DocSym (s2n "A") (s2n "class") 6 7 DKClass
+        [DocSym (s2n "x") (s2n "int") 12 13 DKTemplateArgument []; DocSym (s2n "f") (s2n "int") 21 22 DKField []];
+      DocSym (s2n "S") (s2n "defset") 43 44 DKDefset
+        [DocSym (s2n "d") (s2n "def") 55 56 DKDef []; DocSym (s2n "anonymous_0") (s2n "def") 58 63 DKDef []];
+      DocSym (s2n "M") (s2n "multiclass") 77 78 DKMulticlass [DocSym (s2n "q") (s2n "int") 83 84 DKTemplateArgument []];
+      DocSym (s2n "e") (s2n "def") 92 93 DKDef [] ]).
+Proof. repeat split; vm_compute; reflexivity. Qed.
